@@ -608,7 +608,12 @@ func (runInfo *runInfoStruct) invokeNilCoalescingOpExpr(expr *ast.NilCoalescingO
 	runInfo.expr = expr.LHS
 	runInfo.invokeExpr()
 	if runInfo.err == nil {
-		if !isNil(runInfo.rv) {
+		// a typed nil (nil map, slice, pointer ...) is nil also when it arrives wrapped in an interface
+		lhs := runInfo.rv
+		if lhs.Kind() == reflect.Interface && !lhs.IsNil() {
+			lhs = lhs.Elem()
+		}
+		if !isNil(lhs) {
 			return
 		}
 	} else {
